@@ -154,14 +154,15 @@ def run_coq_cases(pid, workdir, imports, verdict_fn, terms, shard=200, timeout=1
     while pending or running:
         while pending and len(running) < NCPU:
             path, n = pending.pop(0)
+            # output goes to a file: a pipe that is only read after exit deadlocks once coqc prints more than 64 KB
             pr = subprocess.Popen(['timeout', str(timeout), 'coqc'] + COQ_ARGS + [path],
-                                  stdout=subprocess.PIPE, stderr=subprocess.STDOUT, text=True,
+                                  stdout=open(path + '.out', 'w'), stderr=subprocess.STDOUT, text=True,
                                   cwd=workdir)
             running.append((pr, path, n))
         for item in list(running):
             pr, path, n = item
             if pr.poll() is not None:
-                out = pr.stdout.read()
+                out = open(path + '.out').read()
                 running.remove(item)
                 if pr.returncode != 0:
                     raise RuntimeError('coqc failed on %s (rc=%s):\n%s' % (path, pr.returncode, out[-3000:]))
@@ -235,7 +236,7 @@ def run_coq_goals(pid, workdir, imports, cases, shard=40, timeout=1800, preamble
                 f.write('Goal True.\n')
                 for gi, (g, far) in enumerate(c['goals']):
                     index[gid] = (k + ci, gi)
-                    f.write('decide_case %d%%nat (%s) (%s).\n' % (gid, g, far))
+                    f.write('decide_case %d%%Z (%s) (%s).\n' % (gid, g, far))
                     gid += 1
                 f.write('exact I. Qed.\n')
         files.append(path)
@@ -246,16 +247,16 @@ def run_coq_goals(pid, workdir, imports, cases, shard=40, timeout=1800, preamble
         while pending and len(running) < NCPU:
             path = pending.pop(0)
             pr = subprocess.Popen(['timeout', str(timeout), 'coqc'] + COQ_ARGS + [path],
-                                  stdout=subprocess.PIPE, stderr=subprocess.STDOUT, text=True, cwd=workdir)
+                                  stdout=open(path + '.out', 'w'), stderr=subprocess.STDOUT, text=True, cwd=workdir)
             running.append((pr, path))
         for item in list(running):
             pr, path = item
             if pr.poll() is not None:
-                out = pr.stdout.read()
+                out = open(path + '.out').read()
                 running.remove(item)
                 if pr.returncode != 0:
                     raise RuntimeError('coqc failed on %s (rc=%s):\n%s' % (path, pr.returncode, out[-3000:]))
-                for m in re.finditer(r'CASE\s+(\d+)%nat\s+(OK|FAIL|INCONCLUSIVE)', out):
+                for m in re.finditer(r'CASE\s+(\d+)%Z\s+(OK|FAIL|INCONCLUSIVE)', out):
                     ci, gi = index[int(m.group(1))]
                     results[ci][gi] = m.group(2)
         time.sleep(0.02)
